@@ -20,8 +20,8 @@ Proof. reflexivity. Qed.
 (* one unfolding of the application f(f) in the scope where f is the self-applying closure *)
 Lemma self_body_step : forall f st,
   leval None None (S (S (S f))) st self_env self_body
-  = (fst (leval None None (S (S f)) (LState (S (calls st)) (S (depth st))) self_env self_body),
-     LState (calls (snd (leval None None (S (S f)) (LState (S (calls st)) (S (depth st))) self_env self_body))) (depth st)).
+  = (fst (leval None None (S (S f)) (LState (N.succ (calls st)) (S (depth st))) self_env self_body),
+     LState (calls (snd (leval None None (S (S f)) (LState (N.succ (calls st)) (S (depth st))) self_env self_body))) (depth st)).
 Proof.
   intros f st.
   change (leval None None (S (S (S f))) st self_env self_body) with
@@ -34,8 +34,8 @@ Proof.
              | (Some vs, st2) =>
                  if negb (Nat.eqb (length vs) (length ps)) then (LRet LVErr, st2)
                  else if over None (depth st2) then (LRet LVErr, st2)
-                 else if over None (calls st2) then (LRet LVErr, st2)
-                 else match leval None None (S (S f)) (LState (S (calls st2)) (S (depth st2))) (bind ps vs cenv) body with
+                 else if over_calls None (calls st2) then (LRet LVErr, st2)
+                 else match leval None None (S (S f)) (LState (N.succ (calls st2)) (S (depth st2))) (bind ps vs cenv) body with
                       | (r, st3) => (r, LState (calls st3) (depth st2))
                       end
              | (None, st2) => (LNoFuel, st2)
@@ -47,8 +47,8 @@ Proof.
   unfold self_env, self_clo. rewrite leval_var. cbn [lookup N.eqb Pos.eqb is_lerr].
   assert (Ha : leval_args None None (S (S f)) st (ECons 0%N (LVClo [0%N] self_body ENil) ENil) (ACons (LVar 0%N) ANil)
                = (Some [LVClo [0%N] self_body ENil], st)) by reflexivity.
-  rewrite Ha. cbn [length negb Nat.eqb over bind].
-  destruct (leval None None (S (S f)) (LState (S (calls st)) (S (depth st))) (ECons 0%N (LVClo [0%N] self_body ENil) ENil) self_body) as [r st3].
+  rewrite Ha. cbn [length negb Nat.eqb over over_calls bind].
+  destruct (leval None None (S (S f)) (LState (N.succ (calls st)) (S (depth st))) (ECons 0%N (LVClo [0%N] self_body ENil) ENil) self_body) as [r st3].
   reflexivity.
 Qed.
 
@@ -65,11 +65,11 @@ Proof.
   intros fuel st. unfold leval_unlimited. destruct fuel as [|f]; [reflexivity|].
   destruct f as [|f2]; [reflexivity|]. destruct f2 as [|f3]; [reflexivity|].
   change (leval None None (S (S (S f3))) st ENil omega) with
-    (match leval None None (S (S f3)) (LState (S (calls st)) (S (depth st))) self_env self_body with
+    (match leval None None (S (S f3)) (LState (N.succ (calls st)) (S (depth st))) self_env self_body with
      | (r, st3) => (r, LState (calls st3) (depth st))
      end).
-  pose proof (self_body_diverges (S (S f3)) (LState (S (calls st)) (S (depth st)))) as H.
-  destruct (leval None None (S (S f3)) (LState (S (calls st)) (S (depth st))) self_env self_body) as [r st3].
+  pose proof (self_body_diverges (S (S f3)) (LState (N.succ (calls st)) (S (depth st)))) as H.
+  destruct (leval None None (S (S f3)) (LState (N.succ (calls st)) (S (depth st))) self_env self_body) as [r st3].
   simpl in H. subst r. reflexivity.
 Qed.
 
@@ -84,7 +84,7 @@ Proof. vm_compute. reflexivity. Qed.
 Section Total.
 
 Variable D : nat.                       (* the depth limit *)
-Variable max_calls : option nat.
+Variable max_calls : option N.
 Variable H : nat.                       (* bound on the height of every body that can be entered *)
 
 Fixpoint wf_val (v : lval) : Prop :=
@@ -107,7 +107,7 @@ Qed.
 Lemma bind_wf : forall ps vs env, Forall wf_val vs -> wf_env env -> wf_env (bind ps vs env).
 Proof.
   induction ps as [|p ps IH]; intros vs env Hvs He; simpl; [exact He|].
-  destruct vs as [|v vs]; [exact He|]. inversion Hvs; subst. simpl. split; [assumption|apply IH; assumption].
+  destruct vs as [|v vs]; [exact He|]. inversion Hvs; subst. apply IH; [assumption|]. simpl. split; assumption.
 Qed.
 
 Definition need (h : nat) (st : lstate) : nat := h + (D - depth st) * (H + 2).
@@ -118,7 +118,7 @@ Proof. intros h st st' E. unfold need. rewrite E. reflexivity. Qed.
 Lemma need_mono : forall h h' st, h <= h' -> need h st <= need h' st.
 Proof. intros. unfold need. lia. Qed.
 
-Lemma need_call : forall h c st, depth st < D -> need h (LState c (S (depth st))) + (H + 2) = h + need 0 st.
+Lemma need_call : forall h (c : N) st, depth st < D -> need h (LState c (S (depth st))) + (H + 2) = h + need 0 st.
 Proof.
   intros h c st Hd. unfold need. simpl depth.
   replace (D - depth st) with (S (D - S (depth st))) by lia. simpl. lia.
@@ -151,15 +151,15 @@ Proof.
       destruct Hwf as [Hcb Hce].
       destruct (IHa args st1 env Henv ltac:(lia) ltac:(lia) ltac:(rewrite need_split, (need_same 0 st st1 Hd1); lia))
         as [vs [st2 [Eargs [Hvs Hd2]]]]. rewrite Eargs.
-      destruct (negb (Nat.eqb (length vs) (length cps))); [eexists _, _; repeat split; [exact I|lia]|].
-      unfold over. destruct (Nat.leb D (depth st2)) eqn:Eov; [eexists _, _; repeat split; [exact I|lia]|].
+      destruct (negb (Nat.eqb (length vs) (length cps))); [eexists _, _; repeat split; solve [exact I|lia]|].
+      unfold over. destruct (Nat.leb D (depth st2)) eqn:Eov; [eexists _, _; repeat split; solve [exact I|lia]|].
       apply Nat.leb_gt in Eov.
-      destruct (match max_calls with Some l => Nat.leb l (calls st2) | None => false end);
-        [eexists _, _; repeat split; [exact I|lia]|].
+      destruct (over_calls max_calls (calls st2));
+        [eexists _, _; repeat split; solve [exact I|lia]|].
       assert (Hd20 : depth st2 = depth st) by lia.
-      pose proof (need_call (height cbody) (S (calls st2)) st2 Eov) as Hk.
+      pose proof (need_call (height cbody) (N.succ (calls st2)) st2 Eov) as Hk.
       rewrite (need_same 0 st st2 Hd20) in Hk.
-      destruct (IHe cbody (LState (S (calls st2)) (S (depth st2))) (bind cps vs cenv)) as [v [st3 [Eb [Hv Hd3]]]];
+      destruct (IHe cbody (LState (N.succ (calls st2)) (S (depth st2))) (bind cps vs cenv)) as [v [st3 [Eb [Hv Hd3]]]];
         [apply bind_wf; assumption|assumption|simpl; lia|lia|].
       rewrite Eb. eexists _, _. repeat split; [assumption|simpl; lia].
   - intros a st env Henv Hh Hd Hf. rewrite need_split in Hf. destruct a as [|e rest]; simpl in Hh, Hf.
@@ -188,8 +188,8 @@ Qed.
 
 (* the number of calls an evaluation makes never passes the limit: the counter only grows through the guarded branch *)
 Lemma calls_bounded : forall md mc fuel,
-  (forall e st env, calls st <= mc -> calls (snd (leval md (Some mc) fuel st env e)) <= mc) /\
-  (forall a st env, calls st <= mc -> calls (snd (leval_args md (Some mc) fuel st env a)) <= mc).
+  (forall e st env, (calls st <= mc)%N -> (calls (snd (leval md (Some mc) fuel st env e)) <= mc)%N) /\
+  (forall a st env, (calls st <= mc)%N -> (calls (snd (leval_args md (Some mc) fuel st env a)) <= mc)%N).
 Proof.
   intros md mc. induction fuel as [|f [IHe IHa]]; [split; intros; simpl; assumption|]. split.
   - intros e st env Hc. destruct e as [z|x|a b|ps body|fn args]; simpl; try assumption.
@@ -199,9 +199,9 @@ Proof.
       destruct (is_lerr fv); [assumption|]. destruct fv as [z| |cps cbody cenv]; try assumption.
       pose proof (IHa args st1 env H1) as H2. destruct (leval_args md (Some mc) f st1 env args) as [[vs|] st2]; simpl in *; [|assumption].
       destruct (negb _); [assumption|]. destruct (over md (depth st2)); [assumption|].
-      unfold over. destruct (Nat.leb mc (calls st2)) eqn:Eov; [assumption|]. apply Nat.leb_gt in Eov.
-      pose proof (IHe cbody (LState (S (calls st2)) (S (depth st2))) (bind cps vs cenv)) as H3. simpl in H3.
-      destruct (leval md (Some mc) f (LState (S (calls st2)) (S (depth st2))) (bind cps vs cenv) cbody) as [r st3].
+      destruct (N.leb mc (calls st2)) eqn:Eov; [assumption|]. apply N.leb_gt in Eov.
+      pose proof (IHe cbody (LState (N.succ (calls st2)) (S (depth st2))) (bind cps vs cenv)) as H3. simpl in H3.
+      destruct (leval md (Some mc) f (LState (N.succ (calls st2)) (S (depth st2))) (bind cps vs cenv) cbody) as [r st3].
       simpl in *. apply H3. lia.
   - intros a st env Hc. destruct a as [|e rest]; simpl; [assumption|].
     pose proof (IHe e st env Hc) as H1. destruct (leval md (Some mc) f st env e) as [[v|] st1]; simpl in *; [|assumption].
@@ -209,5 +209,5 @@ Proof.
 Qed.
 
 Theorem limited_eval_calls_bounded : forall fuel e,
-  calls (snd (leval_limited fuel (LState 0 0) ENil e)) <= max_anon_function_calls.
-Proof. intros fuel e. apply (proj1 (calls_bounded _ _ fuel)). simpl. lia. Qed.
+  (calls (snd (leval_limited fuel (LState 0 0) ENil e)) <= max_anon_function_calls)%N.
+Proof. intros fuel e. apply (proj1 (calls_bounded _ _ fuel)). simpl. unfold max_anon_function_calls. lia. Qed.
